@@ -69,8 +69,8 @@ func runC13(p *Prog, r *Report) {
 	}
 	// decorators
 	for _, fn := range p.Implementers(modPath+"/pkg/scan", "RequestGenerator", "GenerateRequests") {
-		if !callsIface(fn, fnGenReq) {
-			continue
+		if !callsIface(fn, fnGenReq) && !staticReachesInvoke(fn, "GenerateRequests", 1) {
+			continue // (the delegate's pass may be started in a small helper of the package)
 		}
 		for _, g := range GoClosures(fn) {
 			checkDecorator(p, r, fn, g)
@@ -382,13 +382,63 @@ func checkStaleDecodeTarget(p *Prog, r *Report, fn *ssa.Function) {
 	for _, b := range fn.Blocks {
 		for _, in := range b.Instrs {
 			c, ok := in.(*ssa.Call)
-			if !ok || !isDecodeCall(&c.Call) {
+			if !ok {
+				continue
+			}
+			// the decode may sit in a small per-line helper that gets the reused target as a pointer parameter
+			var viaParam *ssa.Parameter
+			if !isDecodeCall(&c.Call) {
+				h := StaticCallee(&c.Call)
+				if h == nil || h.Pkg != fn.Pkg || !inlineCandidate(h) {
+					continue
+				}
+				var inner *ssa.Call
+				for _, hb := range h.Blocks {
+					for _, hi := range hb.Instrs {
+						if hc, isC := hi.(*ssa.Call); isC && isDecodeCall(&hc.Call) {
+							if prm, isP := decodeTarget(&hc.Call).(*ssa.Parameter); isP {
+								inner, viaParam = hc, prm
+							}
+						}
+					}
+				}
+				if inner == nil {
+					continue
+				}
+				idx := paramIndex(h, viaParam)
+				if idx < 0 || idx >= len(c.Call.Args) {
+					continue
+				}
+				tgt, isA := c.Call.Args[idx].(*ssa.Alloc)
+				if !isA {
+					continue
+				}
+				checkStaleTargetAt(p, r, fn, heads, b, inner, tgt, viaParam)
 				continue
 			}
 			target, ok := decodeTarget(&c.Call).(*ssa.Alloc)
 			if !ok {
 				continue
 			}
+			checkStaleTargetAt(p, r, fn, heads, b, c, target, nil)
+		}
+	}
+}
+
+// checkStaleTargetAt: c is the decode call (in fn, or in a helper expanded into fn whose parameter viaParam is
+// bound to target), b the block of fn where the decode (or the helper call) sits.
+func checkStaleTargetAt(p *Prog, r *Report, fn *ssa.Function, heads map[*ssa.BasicBlock]bool, b *ssa.BasicBlock, c *ssa.Call, target *ssa.Alloc, viaParam *ssa.Parameter) {
+	isTarget := func(s *Seg, v ssa.Value) bool {
+		if v == ssa.Value(target) {
+			return true
+		}
+		if viaParam != nil && (v == ssa.Value(viaParam) || (s != nil && s.Resolve(v) == ssa.Value(target))) {
+			return true
+		}
+		return false
+	}
+	{
+		{
 			// innermost loop containing the decode
 			var L *ssa.BasicBlock
 			for h := range heads {
@@ -397,13 +447,13 @@ func checkStaleDecodeTarget(p *Prog, r *Report, fn *ssa.Function) {
 				}
 			}
 			if L == nil {
-				continue
+				return
 			}
 			key := FuncName(fn) + "/decode-target"
 			pos := p.Pos(c.Pos())
 			if loopBlocks(L)[target.Block()] {
 				r.OK("C13.R2", key, pos, "the decode target is fresh per iteration or fully reset before each decode")
-				continue
+				return
 			}
 			// fields read in the loop
 			read := map[string]bool{}
@@ -418,6 +468,19 @@ func checkStaleDecodeTarget(p *Prog, r *Report, fn *ssa.Function) {
 					}
 				}
 			}
+			if viaParam != nil {
+				for _, hb := range viaParam.Parent().Blocks {
+					for _, li := range hb.Instrs {
+						if fa, ok := li.(*ssa.FieldAddr); ok && fa.X == ssa.Value(viaParam) {
+							for _, ref := range *fa.Referrers() {
+								if u, ok := ref.(*ssa.UnOp); ok && u.Op == token.MUL {
+									read[fieldName(fa.X.Type(), fa.Field)] = true
+								}
+							}
+						}
+					}
+				}
+			}
 			okAll, detail := true, ""
 			for _, s := range PathsInl(fn).From(L) {
 				if !s.Has(c) {
@@ -427,10 +490,10 @@ func checkStaleDecodeTarget(p *Prog, r *Report, fn *ssa.Function) {
 				whole := false
 				for _, e := range s.Events {
 					if e.Kind == EvStore && e.Ord < s.ord[c] {
-						if fa, ok := e.Addr.(*ssa.FieldAddr); ok && fa.X == ssa.Value(target) {
+						if fa, ok := e.Addr.(*ssa.FieldAddr); ok && isTarget(s, fa.X) {
 							reset[fieldName(fa.X.Type(), fa.Field)] = true
 						}
-						if e.Addr == ssa.Value(target) {
+						if isTarget(s, e.Addr) {
 							whole = true
 						}
 					}
